@@ -19,4 +19,5 @@ pub mod life;
 pub mod sasl;
 pub mod hostile;
 pub mod e2e;
+pub mod c05;
 pub mod sweeps;
